@@ -139,7 +139,7 @@ func (t *tcode) ensureRegion(spec regionSpec) (*regionInfo, string) {
 		return nil, "enclosing function not found: " + spec.fn
 	}
 	body := outer.Body
-	var ownParams []*ast.Ident
+	var ownParams, namedResults []*ast.Ident
 	var results *types.Tuple
 	outerSig := t.L.info.Defs[outer.Name].Type().(*types.Signature)
 	results = outerSig.Results()
@@ -157,6 +157,11 @@ func (t *tcode) ensureRegion(spec regionSpec) (*regionInfo, string) {
 		if spec.from == "" {
 			for _, f := range lit.Type.Params.List {
 				ownParams = append(ownParams, f.Names...)
+			}
+		}
+		if lit.Type.Results != nil {
+			for _, f := range lit.Type.Results.List {
+				namedResults = append(namedResults, f.Names...)
 			}
 		}
 	}
@@ -205,6 +210,9 @@ func (t *tcode) ensureRegion(spec regionSpec) (*regionInfo, string) {
 	for _, p := range ownParams {
 		own[t.L.info.Defs[p]] = true
 	}
+	for _, p := range namedResults {
+		own[t.L.info.Defs[p]] = true // declared by the generated definition itself
+	}
 	seen := map[*types.Var]bool{}
 	var errText string
 	addFree := func(v *types.Var) {
@@ -226,10 +234,11 @@ func (t *tcode) ensureRegion(spec regionSpec) (*regionInfo, string) {
 			if v.Pkg() != nil && v.Parent() == v.Pkg().Scope() {
 				return true // package-level
 			}
-			if v.Pos() >= lo && v.Pos() < hi {
+			_, isFn := v.Type().Underlying().(*types.Signature)
+			if v.Pos() >= lo && v.Pos() < hi && !isFn {
 				return true // declared inside the region
 			}
-			if _, isFn := v.Type().Underlying().(*types.Signature); isFn {
+			if isFn {
 				// sibling closure
 				sub, e := t.ensureRegion(regionSpec{fn: spec.fn, name: v.Name(), closure: v.Name()})
 				if sub == nil {
@@ -308,6 +317,27 @@ func (t *tcode) extUse(alias, field string, sig *types.Signature, at ast.Node) {
 	}
 	parts = append(parts, rt)
 	t.exts[alias][field] = strings.Join(parts, " → ")
+	// the all-zero instance (for non-vacuity examples): every external answers the zero value of its result type
+	z := ""
+	if sig.Results().Len() == 1 {
+		z, ok = t.zero(sig.Results().At(0).Type())
+	} else {
+		var zs []string
+		ok = true
+		for i := 0; i < sig.Results().Len(); i++ {
+			zi, oki := t.zero(sig.Results().At(i).Type())
+			ok = ok && oki
+			zs = append(zs, zi)
+		}
+		z = "(" + strings.Join(zs, ", ") + ")"
+	}
+	if !ok {
+		t.fail(at, "external %s: no zero value for its result", field)
+	}
+	if t.extZero[alias] == nil {
+		t.extZero[alias] = map[string]string{}
+	}
+	t.extZero[alias][field] = "fun" + strings.Repeat(" _", len(parts)-1) + " => " + z
 }
 
 func (t *tcode) extStruct(alias string) string {
@@ -325,6 +355,11 @@ func (t *tcode) extStruct(alias string) string {
 	sb.WriteString("structure Gen." + alias + ".Ext where\n")
 	for _, n := range names {
 		sb.WriteString("  " + n + " : " + fs[n] + "\n")
+	}
+	sb.WriteString("\n/-- every external answers the zero value of its result type (a base for concrete instances) -/\n")
+	sb.WriteString("def Gen." + alias + ".Ext.trivial : Gen." + alias + ".Ext where\n")
+	for _, n := range names {
+		sb.WriteString("  " + n + " := " + t.extZero[alias][n] + "\n")
 	}
 	sb.WriteString("\n")
 	return sb.String()
